@@ -92,6 +92,16 @@ def _ci(self, subset):
 
 
 NSM.NetlistSimplifyMixin._check_ic = _ci
+_orig_anm = NetlistMixin.augment_node_map
+
+
+def _anm(self, node_map=None):
+    r = _orig_anm(self, node_map)
+    LOG.append(['node_map', {str(k): str(v) for k, v in r.items()}])
+    return r
+
+
+NetlistMixin.augment_node_map = _anm
 NSM.NetlistSimplifyMixin._simplify_combine_series = _cs
 NSM.NetlistSimplifyMixin._simplify_combine_parallel = _cp
 NetlistMixin._find_combine_subsets = _fcs
@@ -219,6 +229,11 @@ def run(case):
     point = {'s': sp.Rational(case.get('s0', '2'))}
     for k, v in case.get('point', {}).items():
         point[k] = sp.Rational(v)
+    if case['op'] == 'solve_only':
+        c = mk(case['netlist'])
+        if case.get('post_subs'):
+            c = c.subs({k: sp.Rational(v) for k, v in case['post_subs'].items()})
+        return {'solve': solve(c, point)}
     c = mk(case['netlist'])
     res = {'hashseed': os.environ.get('PYTHONHASHSEED')}
     res['orig'] = parse_net(str(c), point)
